@@ -32,6 +32,14 @@ let model op args =
   | "dv" -> vres_i (decode_varint (bytes_of_hex (a0 ())))
   | "dcu" -> vres_u (decode_cmp_uvarint (bytes_of_hex (a0 ())))
   | "dcv" -> vres_i (decode_cmp_varint (bytes_of_hex (a0 ())))
+  | "me" -> hex_of_bytes (mvcc_encode (bytes_of_hex (a0 ())) (n_of_hex (List.nth args 1)))
+  | "md" -> (match mvcc_decode (bytes_of_hex (a0 ())) with
+             | MOk (k, v) -> "ok " ^ hex_of_bytes k ^ " " ^ hex_of_n v
+             | MErr -> "err")
+  | "mke" -> hex_of_bytes (mem_encode_key (bytes_of_hex (a0 ())))
+  | "mkd" -> (match mem_decode_key (bytes_of_hex (a0 ())) with
+              | Some k -> "ok " ^ hex_of_bytes k
+              | None -> "err")
   | "cmp" -> (match lex_cmp (bytes_of_hex (a0 ())) (bytes_of_hex (List.nth args 1)) with
               | Eq -> "eq" | Lt -> "lt" | Gt -> "gt")
   | _ -> "unknown-op"
